@@ -13,8 +13,11 @@ def generate(seed, tier='quick', index=0):
     # a quarter of the sessions run on the FAST selection-choice encoder (processor and twin alike): its decode path has
     # its own memoisation (imputation cache, exclusion set) that fix / free operations interact with
     import random
-    if random.Random(seed ^ 0x5EED).random() < 0.25:
+    r = random.Random(seed ^ 0x5EED)
+    if r.random() < 0.25:
         t['encoder'] = 'fast'
+    if r.random() < 0.12 and (t['spec'].get('dv') or t['spec'].get('metrics')):
+        t['base_values'] = True  # the base graph (of processor and twin alike) stores values before the processor is built
     return t
 
 
